@@ -383,6 +383,9 @@ func (w *World) concHook(c *column.Collection, latch *smutex.SMutex128, p uint8,
 	case uint8(column.SimMidCommit1):
 		mt := w.txns[tid]
 		if mt == nil {
+			if w.ttl != nil && w.sim.cur.foreign {
+				w.ttl.vCommitting[arg] = true // the cleanup applied its delete markers to this block
+			}
 			return
 		}
 		w.seq++
@@ -397,16 +400,24 @@ func (w *World) concHook(c *column.Collection, latch *smutex.SMutex128, p uint8,
 			w.fail(violation("latch/not-held-in-commit", "thread %d applies block %d without holding its write latch", tid, arg))
 		}
 	case uint8(column.SimAfterUnlock):
+		if w.ttl != nil && w.sim.cur.foreign {
+			delete(w.ttl.vCommitting, arg)
+		}
 		if bc := st.cur[tid][arg]; bc != nil {
 			bc.done = true
 			delete(st.cur[tid], arg)
 			if w.ttl != nil {
+				w.noteExpired()
 				// the deadlines this commit stored are visible from now on
 				for _, o := range bc.mt.Ops {
+					if o.Off>>14 == arg && o.Kind == mDelete && w.ttl.inPass {
+						w.noteTrigger("ttl-change-during-pass") // the offset can get a new occupant during the pass
+					}
 					if o.Off>>14 == arg && (o.Col == "expire" || o.Kind == mInsert) {
 						w.seq++
 						w.ttl.deadlineSeq[o.Off] = w.seq
-						if w.ttl.inPass && o.Col == "expire" {
+						if w.ttl.inPass {
+							// a deadline or a new occupant of an offset committed while a pass is in progress
 							w.noteTrigger("ttl-change-during-pass")
 							w.stats.probe("ttl-committed-during-cleanup-pass")
 						}
